@@ -11,6 +11,24 @@ CLAIMED = {
    design='5/C01'),
 }
 
+CLAIMED.update({
+ 'C07': dict(
+   technique='Lean 4 proof: arithmetic of the 64-bit padding formula (BitVec link + minimality), power-of-two units and block alignment by mutual structural induction; correspondence on real schema rows',
+   text='Kernel-checked: pad_is_bit_formula (the model formula is the crate\'s wrapping_neg & (u-1) on 64-bit words), pad_spec (for every offset and power-of-two unit: aligned, smaller than the unit, minimal), unit_pow2 / unit_ge_field (units are powers of two, >= native alignment and field units), blocks_aligned (every zero-copy block of every serialized value starts at a multiple of its unit), zero_block_shape_* (exactly pad zero bytes precede the data), count_exact_full. The implementation is compared with the model on layouts (size_of/align_of/max_size_of), on the schema rows recorded by the real serialize_with_schema (block offsets, padding rows) and on byte counts.',
+   note='unit theorems exclude ranges over index types whose size is not a power of two (Ty.wf), a recorded limitation; rustc layout is modelled and validated per run.',
+   design='5/C07'),
+ 'C10': dict(
+   technique='Lean 4 proof: complete decision table of check_header over every content of the 29 fixed bytes (surjectivity of the field decoding), tied by exhaustive bit flips on the real code',
+   text='Kernel-checked: checkHeader_decision gives, for every content of the 29 fixed bytes followed by an intact name, the exact result of check_header (specific error with the offending value, in the published order; never a panic); fixedHdr_surjective shows every 29-byte content is covered (hence every single-bit flip); expected_none_iff characterises acceptance; minor_lower_ok/minor_lower_same_state; deFull_corrupt/deEps_corrupt lift to both deserializers. The run flips header bits of real streams and compares error kind and payload with the model and with the decision logic.',
+   note='the type name after the fixed bytes is assumed intact (a corrupted name can make check_header panic: outside the 29 bytes the property speaks of).',
+   design='5/C10'),
+ 'C15': dict(
+   technique='Lean 4 proof: decision logic of the tag tables for all byte values / all 64-bit tag words, both readers; tag positions located through the real schema in the correspondence',
+   text='Kernel-checked: tag_roundtrip (every variant of every sum type is read back), *_foreign_full / *_foreign_eps (every byte value that no variant writes is rejected with InvalidTag carrying exactly that value, for Option, Bound, ControlFlow, in both readers), enum_foreign_full/eps (every 64-bit tag word >= number of variants, any derived enum), written_tags / enum_written_tag (written tags are never foreign). The run sets every tag byte/word of real streams (positions taken from the real serialize_with_schema) to foreign values and compares with the model and the oracle.',
+   note='only foreign tag values are injected in the correspondence (switching to another valid variant re-interprets following bytes as lengths and can abort the process in the allocator).',
+   design='5/C15'),
+})
+
 NOT_YET = {
 }
 
